@@ -43,7 +43,7 @@ func lnTableFor(ix *comet.BM25SearchIndex, texts []string) map[uint64]uint64 {
 	lnT := map[uint64]uint64{}
 	N := float64(st.NumDocs)
 	for _, text := range texts {
-		for _, tk := range comet.VerifTokenize(text) {
+		for _, tk := range specTokens(text) {
 			if p, ok := st.Postings[tk]; ok {
 				df := float64(len(p))
 				x := (N-df+0.5)/(df+0.5) + 1.0
